@@ -15,6 +15,7 @@ import (
 	"io"
 	"os"
 	"os/exec"
+	"os/signal"
 	"path/filepath"
 	"sort"
 	"strconv"
@@ -767,20 +768,43 @@ func ClearImmutable(root string) {
 }
 
 // Probe is the value of the save line's probe field for a block mode and a
-// per-save fault: same | xdev | notmp | faildir.
+// per-save fault: same | xdev | notmp | faildir, optionally followed by
+// "+fsize=<n>" (write fault: RLIMIT_FSIZE of n bytes around the save).
 func Probe(blockMode, fault string) string {
-	if fault != "" {
+	switch {
+	case fault == "":
+		return blockMode
+	case strings.HasPrefix(fault, "fsize="):
+		return blockMode + "+" + fault
+	default:
 		return fault
 	}
-
-	return blockMode
 }
+
+// FsizeOf returns the write-fault limit of a probe field, -1 if there is none.
+func FsizeOf(probe string) int64 {
+	if i := strings.Index(probe, "+fsize="); i >= 0 {
+		n, err := strconv.ParseInt(probe[i+len("+fsize="):], 10, 64)
+		if err == nil {
+			return n
+		}
+	}
+
+	return -1
+}
+
+var ignoreXFSZ sync.Once
 
 // WithFault runs f (which contains the Window) with the given fault injected:
 // "notmp" points TMPDIR at a directory that does not exist, "faildir" makes the
-// destination directory immutable.
+// destination directory immutable, "+fsize=n" makes every write beyond n bytes
+// of a file fail with EFBIG (SIGXFSZ ignored) — the stand-in for ENOSPC/EIO.
 func WithFault(probe, dest string, f func()) {
-	switch probe {
+	base := probe
+	if i := strings.IndexByte(probe, '+'); i >= 0 {
+		base = probe[:i]
+	}
+	switch base {
 	case "notmp":
 		old := os.Getenv("TMPDIR")
 		_ = os.Setenv("TMPDIR", filepath.Join(old, "does-not-exist"))
@@ -790,6 +814,23 @@ func WithFault(probe, dest string, f func()) {
 			panic(err)
 		}
 		defer SetImmutable(filepath.Dir(dest), false)
+	}
+	if n := FsizeOf(probe); n >= 0 {
+		ignoreXFSZ.Do(func() { signal.Ignore(syscall.SIGXFSZ) })
+		var lim syscall.Rlimit
+		if err := syscall.Getrlimit(syscall.RLIMIT_FSIZE, &lim); err != nil {
+			panic(err)
+		}
+		low := lim
+		low.Cur = uint64(n)
+		if err := syscall.Setrlimit(syscall.RLIMIT_FSIZE, &low); err != nil {
+			panic(err)
+		}
+		defer func() {
+			if err := syscall.Setrlimit(syscall.RLIMIT_FSIZE, &lim); err != nil {
+				panic(err)
+			}
+		}()
 	}
 	f()
 }
